@@ -325,6 +325,14 @@ func exprS5(emit func(stratum string, e *E)) {
 	emit("S5", call("length", vr("l")))
 	emit("S5", call("length", vr("mp", Acc{Kind: "dot", Key: "l"})))
 	emit("S5", call("max", call("length", vr("l")), call("min", lit("1", data.Int(1)), lit("5", data.Int(5)))))
+	// calls nested in every argument position, to depth 3
+	i1, i3, i4, i5 := lit("1", data.Int(1)), lit("3", data.Int(3)), lit("4", data.Int(4)), lit("5", data.Int(5))
+	emit("S5", call("max", i1, call("min", i5, i4)))
+	emit("S5", call("min", vr("i"), call("max", vr("m"), i3)))
+	emit("S5", call("round", lit("1.55", data.Float(1.55)), call("length", vr("l"))))
+	emit("S5", call("max", call("min", i1, i3), call("max", i3, call("min", i4, i5))))
+	emit("S5", call("min", call("max", i1, call("min", i5, i4)), call("length", call("keys", call("augmentMap", vr("mp"), vr("mp"))))))
+	emit("S5", call("strContains", lit("'abc'", data.String("abc")), bin("+", lit("'b'", data.String("b")), call("min", i1, i3))))
 }
 
 // vr0 wraps an expression so that a map result is printed through a key lookup is not possible; print the map itself.
